@@ -12,6 +12,43 @@ REGEX_API_OK = re.compile(r"^regex::regex::string::(Regex::(captures|split)|Capt
 OPTION_FIELDS = ["nullable", "trim", "convert", "microseconds", "default_value"]
 
 
+def inline_pattern_rule(R, rid):
+    """an inline pattern column (`'regex' => col TYPE`) reads group 1 of *its own* capture pattern: the name put into its reference is the
+    name made for the pattern registered right there (never the name of some other declared pattern, whose mode or groups may differ)"""
+    P = R.prog
+    R.rule(rid, "the pattern name of an inline-pattern column's reference (group_index 1, built in parse_create_table) is the freshly "
+                "formatted name of the capture pattern registered for it - not a name looked up among the patterns declared so far")
+    f0 = P.fn("sqlgrep::parsing::parser::Parser::parse_create_table")
+    if f0 is None:
+        return
+    v = PR.desugared(P, PR.view(P, f0))
+    n = 0
+    for i, st in v.stmts():
+        if st["k"] != "assign" or st["rv"]["k"] != "aggr" or st["rv"].get("variant") != "RegexResultReference":
+            continue
+        flds = st["rv"].get("fields") or []
+        if "group_index" not in flds or "pattern_name" not in flds:
+            continue
+        gi = st["rv"]["ops"][flds.index("group_index")]
+        if gi.get("k") != "const" or gi.get("int") != 1:
+            continue
+        n += 1
+        os_ = F.origins(v, st["rv"]["ops"][flds.index("pattern_name")], depth=14)
+        made = [o for o in os_ if o.kind == "call" and re.search(r"core::hint::must_use$|^alloc::fmt::format", short(o.call.name))]
+        other = [o for o in os_ if not (o.kind == "call" and (re.search(r"core::hint::must_use$|^alloc::fmt::format", short(o.call.name)) or
+                                                              F.TRANSPARENT.search(short(o.call.name)) or
+                                                              re.search(r"ToString>::to_string$", short(o.call.name)))) and o.kind not in ("unknown",)]
+        if made and not other:
+            R.ok(rid, "parse_create_table|inline", "pattern_name = format!(..) of the pattern pushed for this column", "%s:%d" % (v.file, st["line"]))
+        else:
+            R.violation(rid, "parse_create_table|inline-name", "the reference of an inline-pattern column can name a pattern that was not "
+                        "registered for it (%s): the column then reads group / field 1 of that other pattern's result - a split pattern's "
+                        "first field, or a capture pattern with other groups" % ([str(o) for o in other][:2] or "no freshly formatted name"),
+                        ["%s:%d" % (v.file, st["line"])])
+    if n == 0:
+        R.note("%s: no inline-pattern reference (RegexResultReference with the constant group 1) found in parse_create_table" % rid)
+
+
 def bool_pattern_rule(R, rid):
     """a BOOLEAN column is `the group took part` only where its pattern matched the line at all: the Value::Bool is built on paths on
     which the lookup of the pattern's result was Some - a line the pattern does not match gives the column's default (NULL), so it
@@ -316,6 +353,7 @@ def run(R):
         R.violation("C01.parse", "bool-existence", "BOOLEAN columns do not mean `the group took part` on both arms (%d of %d)" % (okb, len(bools)),
                     [eur.loc()])
     bool_pattern_rule(R, "C01.parse")
+    inline_pattern_rule(R, "C01.inline")
     # ---- purity
     impure = []
     for k in sorted(reach):
